@@ -146,6 +146,24 @@ Example ex_borrow : wf_module prog_borrow = true /\ well_scoped prog_borrow = tr
                     uams prog_borrow = [] /\ check md prog_borrow = Ok [].
 Proof. vm_compute. repeat split. Qed.
 
+(** known finding "generic-instantiated" (known/C23.json): the tree the checker sees carries the callee's type as
+    instantiated at the call site. The same source program — gen! |T| x: T; for! .., x => (gen! x; c.mo! v, x) —
+    with the declared kind of the generic parameter (not a mutable type: the Spec finds no use after a move) and with
+    the kind the type checker left at that call site (T linked to List!(Int, _): the checker, faithfully to
+    args_ownership, moves x and rejects its next use). The theorems above are about the tree as dumped; the class
+    [Known_C23] guards the judge of the check, which works with the declared types. *)
+Definition gen_ : str := [103].
+Definition prog_generic (k : pkind) :=
+  [ECall (EVar 10 f_ false) (g_sig KImm)
+     [ELambda [60; 108; 62] [x_] []
+        [ECall (EVar 20 gen_ false) (g_sig k) [EVar 21 x_ true] [] [] [] []; print_ 30 (EVar 31 x_ true)]] [] [] [] []].
+Lemma generic_instantiation_refuted :
+    Known_C23 [gen_] (prog_generic KImm) = true /\
+    wf_module (prog_generic KImm) = true /\ well_scoped (prog_generic KImm) = true /\
+    uams (prog_generic KImm) = [] /\
+    check md (prog_generic KMut) = Ok [MkErr x_ 31 21 [58; 58; 109; 58; 58; 60; 108; 62]].
+Proof. vm_compute. repeat split. Qed.
+
 (** an inner variable shadows a moved outer one; a redefinition is a fresh variable *)
 Definition prog_shadow := [EDef DVar false v [] [] [mut_list]; EDef DVar false w [] [] [EVar 21 v true];
                            EDef DSubr false f_ [] [] [EDef DVar false v [] [] [mut_list]; print_ 40 (EVar 41 v true)];
